@@ -4,6 +4,7 @@ import (
 	"fmt"
 	"go/token"
 	"regexp"
+	"sort"
 	"strings"
 
 	"ddcheck/core"
@@ -208,6 +209,35 @@ func C15(p *core.Program, r *core.Report) {
 			}
 		}
 		r.Add("A1", "Result.Title is the extractor's first candidate", p.Pos(ap.Pos()), ok, "")
+	}
+
+	// ---- A1 continued: the candidate list is handed to the article extractor while the
+	// extractor still holds it: whoever receives it may read it only (a sort or an in-place
+	// filter would change which title is "the first candidate")
+	if ec := mustInl(p, r, "A1", "(*"+extractorPkg+".ContentExtractor).ExtractContent"); ec != nil {
+		a := runPEA(p)
+		n := 0
+		seenRecv := map[string]bool{}
+		for _, call := range core.Calls(ec, func(ci ssa.CallInstruction) bool { return ci.Common().StaticCallee() != nil }) {
+			callee := call.Common().StaticCallee()
+			for i, arg := range call.Common().Args {
+				if c.Of(arg) != cand || i >= len(callee.Params) {
+					continue
+				}
+				n++
+				if seenRecv[core.ShortKey(callee)] {
+					continue
+				}
+				seenRecv[core.ShortKey(callee)] = true
+				var mods []string
+				for f, e := range a.ParamMods(callee, i, true) {
+					mods = append(mods, f+" ("+strings.Join(a.Chain(e), " > ")+")")
+				}
+				sort.Strings(mods)
+				r.Add("A1", "the candidate list is only read by "+core.ShortKey(callee), p.Pos(call.Pos()), len(mods) == 0 && a.Analysed(callee), strings.Join(mods, "; "))
+			}
+		}
+		r.Add("A1", "receivers of the candidate list found", p.Pos(ec.Pos()), n >= 1, fmt.Sprintf("%d calls pass the list on", n))
 	}
 
 	// ---- A3
